@@ -29,7 +29,10 @@ type ReuseOp struct {
 	PreIt      int      `json:"pre_it,omitempty"`
 	Take       int      `json:"take,omitempty"` // 0 = walk to the end, k>0 = only k steps (leaves the iterator half-consumed)
 	Doc        int      `json:"doc,omitempty"`
-	Restart    bool     `json:"restart,omitempty"` // dictionary iterator: open a fresh iterator on the kept Dictionary
+	Restart    bool     `json:"restart,omitempty"`  // dictionary iterator: open a fresh iterator on the kept Dictionary
+	Slot       int      `json:"slot,omitempty"`     // dictionary iterator: which of the two iterators kept open per (segment, field)
+	Same       bool     `json:"same,omitempty"`     // postings: look up the same (segment, field, term) as the previous postings lookup
+	PreLast    bool     `json:"pre_last,omitempty"` // postings: pass the most recently returned list as prealloc
 }
 
 type ReuseCase struct {
@@ -51,6 +54,13 @@ func genReuseCase(t *rapid.T, prop string) *Case {
 		o.NoLocs = true
 	}
 	wd := GenWorld(t, o)
+	if rapid.IntRange(0, 3).Draw(t, "twin") == 0 && wd.Segs[0].Merge == nil && len(wd.Segs[0].Batch) >= 2 {
+		// a twin of the first build: the same documents in rotated order, so that
+		// both segments have the same layout (same offsets) but different contents
+		twin := wd.Segs[0]
+		twin.Batch = append(append([]Item(nil), wd.Segs[0].Batch[1:]...), wd.Segs[0].Batch[0])
+		wd.Segs = append(wd.Segs, twin)
+	}
 	rc := &ReuseCase{}
 	n := rapid.IntRange(2, 30).Draw(t, "nops")
 	for i := 0; i < n; i++ {
@@ -76,10 +86,13 @@ func genReuseCase(t *rapid.T, prop string) *Case {
 			if rapid.IntRange(0, 2).Draw(t, "partial") == 0 {
 				op.Take = rapid.IntRange(1, 3).Draw(t, "take")
 			}
+			op.Same = rapid.IntRange(0, 3).Draw(t, "same") == 0
+			op.PreLast = rapid.IntRange(0, 3).Draw(t, "prelast") == 0
 		case 1:
 			op.Field = rapid.IntRange(0, 7).Draw(t, "field")
 			op.Take = rapid.IntRange(1, 4).Draw(t, "take")
 			op.Restart = rapid.IntRange(0, 4).Draw(t, "restart") == 0
+			op.Slot = rapid.IntRange(0, 1).Draw(t, "slot")
 		case 4:
 			op.PrePL = rapid.IntRange(1, 8).Draw(t, "which")
 			op.PreIt = rapid.IntRange(0, 8).Draw(t, "preit")
@@ -99,6 +112,7 @@ func genReuseCase(t *rapid.T, prop string) *Case {
 type dictKey struct {
 	seg   int
 	field string
+	slot  int
 }
 
 type openDictIter struct {
@@ -129,7 +143,16 @@ func runReuseCase(c *Case, env *Env) *Result {
 	dvrs := map[int]segment.DocumentValueReader{}
 	otherSince := map[dictKey]bool{}
 
+	var keyBuf []byte // one scratch buffer for all term keys, as a caller tokenising into a reused slice has
+	var lastPL segment.PostingsList
+	lastSeg, lastField, lastTerm, lastAbsent := -1, 0, 0, false
 	for oi, op := range c.Reuse.Ops {
+		if op.Kind == 0 {
+			if op.Same && lastSeg >= 0 {
+				op.Seg, op.Field, op.Term, op.Absent = lastSeg, lastField, lastTerm, lastAbsent
+			}
+			lastSeg, lastField, lastTerm, lastAbsent = op.Seg, op.Field, op.Term, op.Absent
+		}
 		ws := w.Segs[op.Seg%len(w.Segs)]
 		exp := ws.Exp()
 		cnt := len(ws.Docs)
@@ -140,7 +163,7 @@ func runReuseCase(c *Case, env *Env) *Result {
 			case 0:
 				names := append(append([]string(nil), ws.Fields...), model.UnknownField)
 				field := names[op.Field%len(names)]
-				key := dictKey{ws.Idx, field}
+				key := dictKey{ws.Idx, field, 0}
 				dict := dicts[key]
 				if dict == nil {
 					d, err := ws.Seg.Dictionary(field)
@@ -187,6 +210,12 @@ func runReuseCase(c *Case, env *Env) *Result {
 					res.probe("prealloc-postings-list")
 					res.NonTrivial = true
 				}
+				if op.PreLast && lastPL != nil {
+					prePL = lastPL
+					desc += " prealloc-list=<the most recently returned list>"
+					res.probe("prealloc-most-recent-list")
+					res.NonTrivial = true
+				}
 				if op.PreIt > 0 && len(its) > 0 {
 					k := (op.PreIt - 1) % len(its)
 					preIt = its[k]
@@ -195,7 +224,9 @@ func runReuseCase(c *Case, env *Env) *Result {
 					res.NonTrivial = true
 				}
 				where += fmt.Sprintf(" postings %s:%q flags %03b%s", field, string(term), op.Flags, desc)
-				pl, err := dict.PostingsList(term, except, prePL)
+				keyBuf = append(keyBuf[:0], term...)
+				pl, err := dict.PostingsList(keyBuf, except, prePL)
+				lastPL = pl
 				if err != nil {
 					f = apiFail("C13", "reuse", "PostingsList", nil, err)
 					return
@@ -265,7 +296,7 @@ func runReuseCase(c *Case, env *Env) *Result {
 			case 1:
 				names := append(append([]string(nil), ws.Fields...), model.UnknownField)
 				field := names[op.Field%len(names)]
-				key := dictKey{ws.Idx, field}
+				key := dictKey{ws.Idx, field, 0}
 				dict := dicts[key]
 				if dict == nil {
 					d, err := ws.Seg.Dictionary(field)
@@ -276,12 +307,17 @@ func runReuseCase(c *Case, env *Env) *Result {
 					dict = d
 					dicts[key] = d
 				}
-				odi := dictIts[key]
+				ikey := dictKey{ws.Idx, field, op.Slot}
+				odi := dictIts[ikey]
 				if odi == nil || op.Restart {
 					odi = &openDictIter{it: dict.Iterator(nil, nil, nil)}
-					dictIts[key] = odi
-					otherSince[key] = false
-				} else if otherSince[key] {
+					dictIts[ikey] = odi
+					otherSince[ikey] = false
+					if dictIts[dictKey{ws.Idx, field, 1 - op.Slot}] != nil {
+						res.probe("two-iterators-open-on-one-dictionary")
+						res.NonTrivial = true
+					}
+				} else if otherSince[ikey] {
 					res.probe("dictionary-iterator-continued-after-other-lookups")
 					res.NonTrivial = true
 				}
